@@ -1,5 +1,5 @@
 (* C12 - the shipped license tables are exactly what the SPDX source data says. *)
-From Spdx Require Import Props.Shipped Spec.TablesSpec Spec.Grammar Gen.SpdxJson Gen.Files
+From Spdx Require Import Props.Shipped Spec.TablesSpec Spec.Grammar Gen.SpdxJson Gen.Files Gen.Template
   WF.JsonPartition WF.FilesRegenerate WF.IdsParse Proofs.ExcGuard Proofs.ParseGrammar Proofs.MatchProof Proofs.TablesSound.
 Local Open Scope list_scope.
 
@@ -9,11 +9,13 @@ Theorem C12_lists_are_the_json_partition :
   licenses = gen_active json_licenses /\ deprecated = gen_deprecated json_licenses /\ exceptions = gen_exceptions json_exceptions.
 Proof. exact (chk_json_partition_sound _ _ _ _ _ chk_json_partition_shipped). Qed.
 
-(* re-running the (modelled) generator reproduces the committed files byte for byte *)
+(* re-running the (modelled) generator reproduces the committed files byte for byte; the layout strings tpl_* are
+   observed from the real generator by the translator (0, 1 and 2 ids) and checked on further synthetic JSON by the tie *)
 Theorem C12_files_regenerate :
-  gen_licenses_file json_licenses = file_get_licenses /\ gen_deprecated_file json_licenses = file_get_deprecated /\
-  gen_exceptions_file json_exceptions = file_get_exceptions.
-Proof. exact (chk_files_regenerate_sound _ _ _ _ _ chk_files_regenerate_shipped). Qed.
+  gen_licenses_file tpl_licenses json_licenses = file_get_licenses /\
+  gen_deprecated_file tpl_deprecated json_licenses = file_get_deprecated /\
+  gen_exceptions_file tpl_exceptions json_exceptions = file_get_exceptions.
+Proof. exact (chk_files_regenerate_sound _ _ _ _ _ _ _ _ chk_files_regenerate_shipped). Qed.
 
 (* pairwise disjoint, no two ids equal up to letter case *)
 Theorem C12_disjoint_fold_unique x y : In x (all_ids T0) -> In y (all_ids T0) -> fold_eqb x y = true -> x = y.
